@@ -412,6 +412,10 @@ def finish_refusals_rule(prog, run, cx, R="R10"):
     run.floor(R, n, 20, "error exits and `?` sites in the finalisation tree")
 
 
+# a `?`-propagated rejection may equally be written as an explicit guarded early return: needle -> (variant, documented predicate)
+TRY_ALT = {W + "write_audio_sample": {"ok_or": ("AudioNotEnabled", "is_none(state:audio_track)")}}
+
+
 def _size_helper(u, p, depth=0):
     """a local helper whose every failure is a size check: explicit error exits under `> u32::MAX`-style guards, `?` only on checked
     arithmetic / checked conversions / other such helpers"""
@@ -641,12 +645,16 @@ def check(prog, run):
         for v, lst in found.items():
             for sigs in lst:
                 ok = v in want and any(_match(r, sigs) for r in want[v])
+                ok = ok or any(a_[0] == v and _match(a_[1], sigs) for a_ in TRY_ALT.get(ent, {}).values())
                 if not ok:
                     run.bad("R1", "%s undocumented %s <= %s" % (mir.norm(ent), v, sigs[-1] if sigs else "unconditional"),
                             "explicit rejection `%s` under guard chain %s is not in the documented contract table" % (v, sigs[-3:]), mir.loc_of(b))
         for desc, needle in wantt:
             nrows += 1
             hits = [t for t in tries if needle in sym.show(t["raw"])]
+            alt = TRY_ALT.get(ent, {}).get(needle)
+            if not hits and alt and any(_match(alt[1], s_) for s_ in found.get(alt[0], []) if s_):
+                hits = [True]        # the same rejection spelled as an explicit `match`/`if` with an early return
             run.check(bool(hits), "R1", "%s ?%s" % (mir.norm(ent), needle), "propagates the %s rejection" % desc, "the `?` propagating the %s rejection (%s) is gone" % (desc, needle), mir.loc_of(b))
         for t in tries:
             if not any(needle in sym.show(t["raw"]) for _, needle in wantt) and t["bb"] not in helper_tries:
